@@ -3,7 +3,7 @@
 
  * build/xsys      : copy of golang.org/x/sys (exact version rcproxy requires) from the module cache with one
                      inserted first statement in each syscall wrapper rcproxy uses, consulting unix.VerifSim.
- * build/overlay   : patched copies of five files of the pinned go1.26.8 GOROOT + overlay.json (absolute paths)
+ * build/overlay   : patched copies of six files of the pinned go1.26.8 GOROOT + overlay.json (absolute paths)
                      for `go build -overlay`.  GOROOT itself is never touched.
 
 Every textual patch is assertion-checked: if the anchor text is not found exactly once the script fails (exit 2).
@@ -182,6 +182,24 @@ func VerifTickThisG() { verifTickGoid = getg().goid }
     open(od + "/runtime_synctest.go", "w").write(s)
     rep[p] = od + "/runtime_synctest.go"
 
+    # runtime/proc.go : LockOSThread/UnlockOSThread become no-ops on request. rcproxy's reactor pins its goroutine to an OS
+    # thread (a performance measure without semantic effect); in simulation every poll grant is a hand-over between the driver
+    # goroutine and the event loop, which with a pinned thread costs two OS-level thread switches (futex wake + sleep, spinning
+    # Ms) and made parallel runs scale badly (26 runs/s on 16 cores instead of >150).
+    p = GOROOT + "/src/runtime/proc.go"
+    s = open(p).read()
+    s = replace_once(s, "func LockOSThread() {\n", "func LockOSThread() {\n\tif verifNoLockOSThread {\n\t\treturn\n\t}\n", "LockOSThread")
+    s = replace_once(s, "func UnlockOSThread() {\n", "func UnlockOSThread() {\n\tif verifNoLockOSThread {\n\t\treturn\n\t}\n", "UnlockOSThread")
+    s += '''
+// verification overlay: when set, LockOSThread / UnlockOSThread do nothing.
+var verifNoLockOSThread bool
+
+// VerifSetNoLockOSThread switches the no-op behaviour of LockOSThread / UnlockOSThread.
+func VerifSetNoLockOSThread(on bool) { verifNoLockOSThread = on }
+'''
+    open(od + "/runtime_proc.go", "w").write(s)
+    rep[p] = od + "/runtime_proc.go"
+
     # net/dial.go : dial hooks
     p = GOROOT + "/src/net/dial.go"
     s = open(p).read()
@@ -222,7 +240,7 @@ func VerifNewTCPConn(sysfd int, laddr, raddr *TCPAddr) *TCPConn {
 def main():
     os.makedirs(BUILD, exist_ok=True)
     h = hashlib.sha256(open(os.path.abspath(__file__), "rb").read())
-    for f in ("runtime/rand.go", "runtime/time.go", "runtime/synctest.go", "net/dial.go"):
+    for f in ("runtime/rand.go", "runtime/time.go", "runtime/synctest.go", "runtime/proc.go", "net/dial.go"):
         h.update(open(GOROOT + "/src/" + f, "rb").read())
     h.update(BUILD.encode())
     stamp = os.path.join(BUILD, "gen.stamp")
